@@ -118,7 +118,7 @@ if it lost shares (at most 1: "one token per force-undelegation"), else 0. -/
 theorem refresh_general_bound {s s' : SState} {key : AccKey} {e : Int} (hv : key.2 ∈ s.b.validators)
     (hT : 0 < (s.k.val key.2).tokens) (hS : 0 < (s.k.val key.2).shares)
     (hd0 : 0 ≤ shOf s.k key) (hdS : shOf s.k key ≤ (s.k.val key.2).shares)
-    (hSr : (s.k.val key.2).shares * (e + 1) ≤ decUpper) (hTr : (s.k.val key.2).tokens + e < I256)
+    (hSr : (s.k.val key.2).shares * (e + 1) ≤ decUpper) (hTr : (s.k.val key.2).tokens + e < powLimit)
     (he : expectedDelegation s.b key = .ok e) (he0 : 0 ≤ e) (hc : refreshOneS s key = .ok s') :
     (BurnRejected s key e ∧ s' = s ∧ e = 0 ∧
       ∃ cur : Int, currentS s key = some cur ∧ 1 ≤ cur ∧
